@@ -24,6 +24,12 @@ THEOREMS = {
         "MG.Eng.write_frames_position",
         "MG.Eng.write_frames_disjoint_window",
     ],
+    "MG.Proofs.Lemmas.InPlaceRefine": [
+        "MG.C04R.inplace_on_owner_refines_numpy",
+        "MG.C04R.mutate_single_eq",
+        "MG.C04R.finalH_spec",
+        "MG.C04R.opStepOut_tensors",
+    ],
     "MG.Proofs.Lemmas.NDIndexLemmas": [
         "MG.ND.ravel_unravel",
         "MG.ND.positions_contig",
@@ -327,13 +333,18 @@ MANIFEST = {
             "back exactly and leaves every other buffer, every position outside the window and hence every window "
             "disjoint from it unchanged (read_write_same, write_frames_*); C-order ravel/unravel are inverse, a "
             "contiguous window addresses its buffer in order, a fresh array reads back its values, and a "
-            "Fortran-ordered array is the .T of the C-ordered array of the reversed shape (fortran_is_transposed_c). The direct oracle executes the same statements on plain ndarrays.",
+            "Fortran-ordered array is the .T of the C-ordered array of the reversed shape (fortran_is_transposed_c). End to end, for the whole _in_place_op of the model on a tensor that owns C-contiguous memory and has no live "
+            "views, with any tensor operands (itself included) and any kernel: if the NumPy-level statement yields `vals` "
+            "then the update succeeds and the same tensor id reads `vals`, keeps its flag and owns its memory, no buffer "
+            "that existed before is written and every other tensor keeps its array and flag "
+            "(inplace_on_owner_refines_numpy, via the closed form finalH of the result heap). "
+            "The direct oracle executes the same statements on plain ndarrays.",
     "note": "Trusted: Lean kernel, standard axioms, the correspondence harness; Owner tensors are C- or "
             "Fortran-ordered; np.copy's 'K' layout is modelled and tied to NumPy; the 'K'-order *result* layout of element-wise "
             "kernels is not modelled (reshape is generated only on tensors whose strides the model knows). The end-to-end "
-            "refinement 'heap after an in-place update = NumPy buffer write, for a whole view forest' is "
-            "validated by correspondence + NumPy twin on every run, not proved (named gap "
-            "inplace_refines_numpy_forest). `.shape =` followed by in-place updates is false of the unchanged "
+            "refinement 'heap after an in-place update = NumPy buffer write' is proved for a tensor without live views "
+            "(inplace_on_owner_refines_numpy); for a whole view forest it is validated by correspondence + NumPy twin on "
+            "every run, not proved (named gap inplace_refines_numpy_forest). `.shape =` followed by in-place updates is false of the unchanged "
             "code (two known findings); advanced-index assignment whose value aliases the target is excluded "
             "(NumPy's own result is order-dependent there).",
 }
